@@ -20,11 +20,12 @@ RULE = ('seeded generator: random apertures 4..22 per side and random partitions
 ASSUMPTIONS = ['segments of one plane are pairwise disjoint (a partition)']
 PLAN = {'quick': {'gen': 8}, 'thorough': {'gen': 16, 'tests': 1}}
 REQUIRED_BUCKETS = ['k=1', 'k=2', 'k=3-8', 'bbox-overlap', 'style:stripes', 'style:blobs', 'style:interleaved',
-                    'chain:1', 'chain:2', 'chain:2-segmented', 'propagated', 'padded', 'tilt-chain', 'segment-tilts', 'fitted-vs-global']
-REQUIRED_ANCHORS = ['probe:propagate_dft', 'anchor:Plane.multiply', 'anchor:slice_offset', 'anchor:boundary_slice',
+                    'chain:1', 'chain:2', 'chain:2-segmented', 'propagated', 'padded', 'tilt-chain', 'segment-tilts', 'fitted-vs-global',
+                    'fft', 'fft:scratch', 'groups:partial']
+REQUIRED_ANCHORS = ['probe:propagate_dft', 'probe:propagate_fft', 'probe:Wavefront.insert', 'anchor:Plane.multiply', 'anchor:slice_offset', 'anchor:boundary_slice',
                     'anchor:field.reduce', 'anchor:field._merge']
 REQUIRED_ORACLES = ['seg=mono:field', 'seg=mono:intensity', 'seg=mono:propagated', 'coherent-sum', 'pad=embed',
-                    'dft=fraunhofer']
+                    'dft=fraunhofer', 'fft=fraunhofer', 'insert=weight*intensity', 'seg=mono:fft']
 TOL = 1e-12
 
 
@@ -39,8 +40,26 @@ def dft_oracle(ctx, args, kwargs, result, exc, pre):
     propmodel.check_dft(ctx, 'propagate_dft', a['wavefront'], a, result, exc)
 
 
+def fft_oracle(ctx, args, kwargs, result, exc, pre):
+    propmodel.check_fft(ctx, 'propagate_fft', propmodel.bind_fft(args, kwargs), result, exc)
+
+
 def install(ctx, lentil):
+    from vp.monitors import C07
     probe.wrap_function(lentil.propagate.propagate_dft, dft_oracle, ctx, 'propagate_dft')
+    probe.wrap_function(lentil.propagate.propagate_fft, fft_oracle, ctx, 'propagate_fft')
+    # accumulation API: out + weight * |coherent sum of the fields|^2 (oracle shared with C07)
+    probe.wrap_method(lentil.wavefront.Wavefront, 'insert', C07.winsert_oracle, ctx)
+
+
+def _accumulate(ctx, rng, w):
+    """Drive Wavefront.insert on a propagated wavefront (the probe decides)."""
+    S = tuple(int(x) for x in w.shape)
+    out = rng.normal(size=S) if rng.random() < 0.7 else np.zeros(S)
+    try:
+        w.insert(out, [1, 0.5, 2.0][int(rng.integers(0, 3))])
+    except Exception:
+        pass        # recorded by the probe
 
 
 def embed(a, shape):
@@ -167,6 +186,29 @@ def workload(ctx, lentil):
         ctx.close('coherent-sum', inten, coh, TOL, 'coherent|image',
                   'image intensity is not |coherent sum of the per-segment fields|^2 (incoherent merge?)', desc,
                   scale=max(float(coh.max()) if coh.size else 0, 1e-300))
+        _accumulate(ctx, rng, osg)
+
+        # the FFT propagator on both descriptions, padded internally and through a caller-supplied scratch buffer
+        if i % 2 == 0:
+            dxs = np.broadcast_to(np.asarray(dx, float), (2,))
+            osf = int(rng.integers(1, 4))
+            Gf = max(shape) + int(rng.integers(1, 12))
+            duf = (wl * z * osf / (dxs[0] * Gf), wl * z * osf / (dxs[1] * Gf))
+            ctx.bucket('fft')
+            try:
+                fm = lentil.propagate_fft(wm, duf, oversample=osf)
+                fs = lentil.propagate_fft(ws, duf, oversample=osf)
+                mm = propmodel.expected_fft(wm, propmodel.bind_fft((wm, duf), dict(oversample=osf)))
+                tolf = mm['tol'] * (1 + k) if isinstance(mm, dict) else None
+                _cmp(ctx, 'seg=mono:fft', 'fft', 'segmented and monolithic description differ after FFT propagation', fm, fs, desc,
+                     scale_tol=tolf)
+                ctx.bucket('fft:scratch')
+                sc = rng.normal(size=(Gf + int(rng.integers(0, 5)), Gf + int(rng.integers(0, 5)))) + 0j
+                fs2 = lentil.propagate_fft(ws, duf, oversample=osf, scratch=sc)
+                _cmp(ctx, 'seg=mono:fft', 'fft-scratch', 'segmented description through a scratch buffer differs from the monolithic FFT result',
+                     fm, fs2, desc, scale_tol=tolf)
+            except Exception as e:
+                ctx.check(False, 'seg=mono:fft', f'fft|raises={type(e).__name__}', str(e), desc)
 
         # chains that carry tilt metadata: tilted wavefront and/or Tilt planes around the (segmented | monolithic) pupil
         if i % 2 == 1:
@@ -217,6 +259,15 @@ def workload(ctx, lentil):
                 ctx.close('coherent-sum', inten, coh, TOL, 'coherent|segment-tilts',
                           'segment images on different (overlapping) windows are not added coherently', desc,
                           scale=max(float(coh.max()) if coh.size else 0, 1e-300))
+                _accumulate(ctx, rng, oft)
+                live = [f for f in oft.data if f.data.size]
+                if len(live) >= 3:
+                    # some windows overlap while others stand alone: neither one group nor all separate
+                    boxes = [rm.bbox_of([(f.data.shape, f.offset)]) for f in live]
+                    ov = [[a[0] <= b[1] and a[1] >= b[0] and a[2] <= b[3] and a[3] >= b[2] for b in boxes] for a in boxes]
+                    npairs = sum(ov[a][b] for a in range(len(live)) for b in range(a + 1, len(live)))
+                    if 0 < npairs < len(live) * (len(live) - 1) // 2:
+                        ctx.bucket('groups:partial')
                 # the same optics as ONE global mask with the tilts left in the OPD (nothing fitted): wherever every
                 # segment's displaced window and the monolithic window were evaluated, the complex fields must agree
                 pm = lentil.Pupil(amplitude=amp, opd=opdt, mask=A.astype(float), pixelscale=dx, focal_length=z)
